@@ -302,6 +302,22 @@ FAULTS = ['control_into_audio_out', 'nan_input', 'none_input', 'str_input',
           'variant_unknown_control', 'variant_too_many_values']
 
 
+BAD_VALUES = {'nan_input': float('nan'), 'none_input': None,
+              'str_input': '440'}
+# classes (C01 catalogue: argument kinds; 'eq' = a signal at the unit's
+# rate) plus the panners, which validate their inputs in a method of their own
+UNIT_ARGS = {c: e['args'] for c, e in G.CATALOGUE.items()
+             if set(e['rates']) <= {'ar', 'kr'}}
+UNIT_ARGS.update({'LinPan2': ['eq', 'sig', 'sig'],
+                  'Balance2': ['eq', 'eq', 'sig', 'sig'],
+                  'XFade2': ['eq', 'eq', 'sig', 'sig'],
+                  'LinXFade2': ['eq', 'eq', 'sig', 'sig'],
+                  'Rotate2': ['eq', 'eq', 'sig']})
+UNIT_RATES = {c: G.CATALOGUE[c]['rates'] if c in G.CATALOGUE
+              else ['ar', 'kr'] for c in UNIT_ARGS}
+BAD_UNITS = sorted([c, r, k] for c in UNIT_ARGS for r in UNIT_RATES[c]
+                   for k in range(len(UNIT_ARGS[c])))
+
 MUST_REJECT = {'control_into_audio_out', 'nan_input', 'none_input',
                'str_input', 'first_input_rate'}
 
@@ -324,12 +340,22 @@ def run_invalid(case, v):
         body0(params)
         if fault == 'control_into_audio_out':
             U['Out'].ar(0, [U['SinOsc'].ar(440, 0), U['SinOsc'].kr(3, 0)])
-        elif fault == 'nan_input':
-            U['Out'].ar(0, U['SinOsc'].ar(float('nan'), 0))
-        elif fault == 'none_input':
-            U['Out'].ar(0, U['SinOsc'].ar(None, 0))
-        elif fault == 'str_input':
-            U['Out'].ar(0, U['SinOsc'].ar('440', 0))
+        elif fault in BAD_VALUES:
+            # the bad value in input `pos` of a unit of class `cls` at `r`
+            cls, r, pos = case.get('unit') or ['SinOsc', 'ar', 0]
+            ent = UNIT_ARGS[cls]
+            args = []
+            for k, kind in enumerate(ent):
+                if k == pos:
+                    args.append(BAD_VALUES[fault])
+                elif kind == 'eq':
+                    args.append(getattr(U['SinOsc'], r)(440, 0))
+                else:
+                    args.append(0.5)
+            sig = getattr(U[cls], r)(*args)
+            if not hasattr(sig, '_as_ugen_input') or isinstance(sig, list):
+                sig = sig[0]
+            getattr(U['Out'], r)(0, sig)
         elif fault == 'tuple_input':
             U['Out'].ar(0, U['SinOsc'].ar((440, 441), 0))
         elif fault == 'first_input_rate':
@@ -392,6 +418,7 @@ def stages(ctx):
               quick=300, thorough=2000),
         Stage('invalid', run_invalid, st.fixed_dictionaries({
             'spec': mcgen.mc_spec(max_steps=6),
-            'fault': st.sampled_from(FAULTS),
-            'n': st.integers(256, 400)}), quick=200, thorough=1000),
+            'fault': st.sampled_from(FAULTS + sorted(BAD_VALUES)),
+            'unit': st.sampled_from(BAD_UNITS),
+            'n': st.integers(256, 400)}), quick=300, thorough=1500),
     ]
